@@ -44,7 +44,17 @@ public:
         void* ptr = pool_alloc(&head);
         if (ptr == nullptr) return nullptr;
 
+        // if T's constructor throws, no object exists: the cell goes back
+        // to the pool (a guard, so this also builds without exceptions)
+        struct cell_guard
+        {
+            pool_head* head;
+            void* cell;
+            ~cell_guard() { if (cell) pool_free(head, cell); }
+        } guard{&head, ptr};
+
         T* obj = new (ptr) T(std::forward<Args>(args)...);
+        guard.cell = nullptr;
         return obj;
     }
 
